@@ -1,6 +1,7 @@
 import TucanProofs.Lemmas.RejectKind
 import TucanProofs.Lemmas.Sentence
 import TucanProofs.Lemmas.ParserDenotation
+import TucanProofs.Lemmas.AcceptIff
 /-!
 # C10 — the parser accepts exactly the grammar; every rejection is the parser's own exception
 
@@ -31,6 +32,22 @@ theorem C10_accepted_is_sentence (s : Str) (g : Graph) (h : graphFromTucan s = .
     cases hp : parseTucan toks with
     | none => simp [hl, hp, bind, Except.bind, pure, Except.pure] at h
     | some ast => exact ⟨toks, ast, rfl, (parseTucan_iff toks ast).mp hp⟩
+
+/-- **Acceptance, exactly.**  A string is accepted if and only if it is a sentence of the grammar whose bond
+and attribute indices refer to existing atoms (an index is at most the number of atoms the formula states),
+which has no bond from an atom to itself and sets no attribute key twice on one atom — within a block or across
+blocks — and (the one line the interpreter draws, not the grammar) none of whose integer literals exceeds
+CPython's conversion limit of 4300 digits. -/
+theorem C10_accepts_iff (s : Str) :
+    (∃ g, graphFromTucan s = .ok g) ↔ ∃ toks ast, lex s = some toks ∧ Sentence toks ast ∧ ast.Valid :=
+  graphFromTucan_accepts_iff s
+
+/-- what `Valid` asks, spelled out -/
+theorem C10_valid_spelled_out (ast : Ast) : ast.Valid ↔
+    (∀ t ∈ ast.literals, t.length ≤ intMaxStrDigits) ∧
+    (∀ p ∈ ast.tuples, litVal p.1 ≤ ast.atomCount ∧ litVal p.2 ≤ ast.atomCount ∧ litVal p.1 ≠ litVal p.2) ∧
+    (∀ b ∈ ast.attrs, litVal b.1 ≤ ast.atomCount) ∧ ast.settings.Nodup :=
+  ⟨fun h => ⟨h.lits, h.tuples, h.attrIdx, h.once⟩, fun ⟨a, b, c, d⟩ => ⟨a, b, c, d⟩⟩
 
 /-- **The returned graph is the denoted graph.**  For every listener state an accepted string gives rise
 to (`GoodState`: atoms of the formula, bonds between different existing atoms in any order / orientation /
